@@ -18,6 +18,20 @@ pub(crate) struct Metadata {
     pub(crate) checksum: u64,
 }
 
+/// Decode an entry header that was read from disk. The bytes are untrusted (a damaged or
+/// foreign file, a torn write): they are validated before anything is dereferenced, and a
+/// payload length no block can hold is rejected as well.
+pub(crate) fn checked_metadata(bytes: &[u8]) -> Option<Metadata> {
+    let mut aligned = rkyv::AlignedVec::with_capacity(bytes.len());
+    aligned.extend_from_slice(bytes);
+    let archived = rkyv::check_archived_root::<Metadata>(&aligned[..]).ok()?;
+    let meta: Metadata = archived.deserialize(&mut rkyv::Infallible).ok()?;
+    if meta.read_size as u64 > crate::wal::config::MAX_ALLOC {
+        return None;
+    }
+    Some(meta)
+}
+
 #[derive(Clone, Debug)]
 pub struct Block {
     pub(crate) id: u64,
@@ -128,20 +142,20 @@ impl Block {
             ));
         }
 
-        // Deserialize only the actual metadata bytes (skip the 2-byte length prefix)
-        let mut aligned = rkyv::AlignedVec::with_capacity(meta_len);
-        aligned.extend_from_slice(&meta_buffer[2..2 + meta_len]);
-
-        // SAFETY: `aligned` contains bytes we just read from our own file format.
-        // We bounded `meta_len` to PREFIX_META_SIZE and copy into an `AlignedVec`,
-        // which satisfies alignment requirements of rkyv.
-        let archived = unsafe { rkyv::archived_root::<Metadata>(&aligned[..]) };
-        let meta: Metadata = archived.deserialize(&mut rkyv::Infallible).map_err(|_| {
+        // Decode only the actual metadata bytes (skip the 2-byte length prefix); they come from
+        // disk and are validated, not trusted.
+        let meta: Metadata = checked_metadata(&meta_buffer[2..2 + meta_len]).ok_or_else(|| {
             std::io::Error::new(
                 std::io::ErrorKind::InvalidData,
                 "failed to deserialize metadata",
             )
         })?;
+        if in_block_offset + PREFIX_META_SIZE as u64 + meta.read_size as u64 > self.limit {
+            return Err(std::io::Error::new(
+                std::io::ErrorKind::InvalidData,
+                "entry length exceeds its block",
+            ));
+        }
         let actual_entry_size = meta.read_size;
 
         // Read the actual data
